@@ -499,7 +499,7 @@ def search(ctx, broken):
         return vs
     allp = sorted(_paths(ctx), key=lambda gp: 0 if gp[0] in ("lookalike-ext", "url-decorated") else 1)
     allp = [p for _, p in allp]
-    for i in range(0, min(len(allp), 4000), 40):
+    for i in range(0, len(allp), 40):     # every generated path (the cap of 4000 cut off the later groups once new groups were put in front)
         vs = _oracle_violations(ctx, allp[i:i + 40])
         if vs:
             return vs
